@@ -88,7 +88,15 @@ class Harness(object):
         return ctxs
 
     def discharge(self, ob, path_index=0):
-        r = smt.prove(ob.hyps, ob.goal, both=self.both, cvc5_first=(getattr(ob, 'solver', None) == 'cvc5'))
+        failed = getattr(self, 'n_failed', 0)
+        if failed >= 3:
+            # this task has already lost three obligations (its verdict is settled): do not spend the long budgets, the second
+            # solver and the retries on every further obligation the changed code breaks
+            r = smt.prove(ob.hyps, ob.goal, timeout_ms=smt.Z3_FIRST_MS, use_cvc5=False, quick=True)
+        else:
+            r = smt.prove(ob.hyps, ob.goal, both=self.both, cvc5_first=(getattr(ob, 'solver', None) == 'cvc5'))
+        if r.status != 'unsat':
+            self.n_failed = failed + 1
         model = None
         if r.status == 'sat' and r.model is not None:
             model = model_summary(r.model)
